@@ -28,6 +28,14 @@ COLS = ['estimate', 'precision', 'lower', 'upper', 'probability', 'incremental_c
 def real_iroas(fr, use_cooldown, rows=None):
   from matched_markets.methodology import tbr_iroas
   m = tbr_iroas.TBRiROAS(use_cooldown=use_cooldown)
+  if fr.get('refit_after') is not None and rows is None:
+    # the analysis object was used for another experiment (of the other cost scenario) before
+    prev = fr['refit_after']
+    try:
+      m.fit(en.to_df(prev), **en.fit_kwargs(prev))
+      m.summary(nsims=50, random_state=1)
+    except Exception:
+      pass
   m.fit(en.to_df(fr, rows), **en.fit_kwargs(fr))
   return m
 
@@ -176,6 +184,7 @@ def run(out, tier, model_ok=True):
   sess = en.ModelSession() if model_ok else None
   pending = []
   scen_hist = {}
+  prev_fr = None
   cdir = os.path.join(core.VERIF, 'corpus', 'C07')
   for fn in sorted(os.listdir(cdir)) if os.path.isdir(cdir) else []:      # past failures run first
     with open(os.path.join(cdir, fn)) as f:
@@ -186,6 +195,9 @@ def run(out, tier, model_ok=True):
               thr=rng.choice([0.0, 0.0, 1.0, 2.5]), nsims=2000, random_state=rng.randint(0, 10 ** 6))
     if i % 5 == 2:
       fr['names'] = dict(en.CUSTOM_NAMES)      # caller-chosen column names
+    if i % 4 == 3 and prev_fr is not None:
+      fr['refit_after'] = prev_fr              # one analysis object, two experiments in a row
+    prev_fr = {k: v for k, v in fr.items() if k != 'refit_after'}
     scen_hist[fr['cost_kind']] = scen_hist.get(fr['cost_kind'], 0) + 1
     check_frame(out, rng, fr, sess, pending)
   if sess is not None and pending:
